@@ -464,6 +464,28 @@ def check_extract_class_name(fx, rep, rule):
                 return call("std::iter::Iterator::last", t[2][0])
             return None
         bad, n = fc.compare_paths(res, ref, lambda st, out: fc.rewrite(out[1], rw_last), rw=rw_last)
+        if bad:
+            # the same two cuts spelled with `rsplit_once('.')` / `split_once('$')` and the uncut text as the fallback (a split always has
+            # a last and a first piece, so the iterator forms never answer None either)
+            def make_ref(cut1_once, cut2_once):
+                def ref2(o):
+                    if cut1_once:
+                        rs = call("core::str::rsplit_once", x, ("lit", "char", "."))
+                        simple = mk_field(mk_payload(rs, "Some", "0"), "1") if o(("is", rs, "Some")) else x
+                    else:
+                        if not o(("is", last, "Some")):
+                            return NONE
+                        simple = mk_payload(last, "Some", "0")
+                    if cut2_once:
+                        so = call("core::str::split_once", simple, ("lit", "char", "$"))
+                        return some(mk_field(mk_payload(so, "Some", "0"), "0") if o(("is", so, "Some")) else simple)
+                    return call("std::iter::Iterator::next", call("core::str::split", simple, ("lit", "char", "$")))
+                return ref2
+            for c1_, c2_ in ((True, True), (True, False), (False, True)):
+                bad2, n2 = fc.compare_paths(res, make_ref(c1_, c2_), lambda st, out: fc.rewrite(out[1], rw_last), rw=rw_last)
+                if not bad2:
+                    bad = bad2
+                    break
         report_cmp(rep, rule, "%s/outer-simple/%s" % (rule, impl), b, res, bad,
                    "segment after the last '.', cut at the first '$' (outer simple class name)")
 
